@@ -56,6 +56,20 @@ CHECKS = {
         design_ref="DESIGN.md 5 C05",
         technique="TLA+ spec shared by both engines + TLC MC + TLC trace validation of twin executions + orphan-task detection",
     ),
+    "C06": dict(
+        category="model_checking",
+        engine="tlc-dispatch",
+        text=("Dispatch.tla models put / try-acquire / check / pop / run / clear / release / re-check for N senders at statement grain in "
+              "threads and asyncio modes; TLC checks Mutex, ExactlyOnce, SenderFIFO, NothingStranded, DroppedNeverRun, LockOwner exhaustively "
+              "(2x2, 3x1, thorough 3x2 senders x events; nested send, failure) and keeps the counterexamples of the rejected protocol "
+              "variants. Real OS threads stepped at every line boundary of the dispatch code (all schedules with <=2-3 preemptions) and "
+              "asyncio tasks stepped one ready handle at a time (all choice sequences) are validated by TLC against Trace_Dispatch.tla; "
+              "TLC-sampled schedules are replayed on real threads by statement label."),
+        design_ref="DESIGN.md 5 C06",
+        technique="TLA+ spec of the dispatch protocol + TLC exhaustive MC + systematic schedule exploration of real threads/tasks validated by TLC",
+        note=("Trusted base: TLC; sys.settrace line stepping of real threads and the one-handle-per-iteration event loop (lib/dispatch.py); "
+              "a source line is the explored unit of atomicity; bounded number of preemptions; CPython atomicity of deque/Lock operations."),
+    ),
     "C10": dict(
         category="model_checking",
         text=("The spec keeps a single `cur` per instance (the model field) and derives every projection from it; TLC explores outside writes "
@@ -156,6 +170,9 @@ def main():
             {"name": "tlc-system", "path": "/verif/spec/System.tla",
              "serves_properties": [p for p in CHECKS if CHECKS[p].get("engine", "tlc-system") == "tlc-system"],
              "kind_free_text": "explicit TLA+ specification (Engine.tla/System.tla), TLC exhaustive model checking (MC_System), batched TLC trace validation of executions recorded from the real library (Trace_System)"},
+            {"name": "tlc-dispatch", "path": "/verif/spec/Dispatch.tla",
+             "serves_properties": ["C06"],
+             "kind_free_text": "explicit TLA+ specification of the concurrent dispatch protocol, TLC exhaustive model checking, TLC trace validation of systematically scheduled real threads / asyncio tasks (Trace_Dispatch)"},
         ],
         "checks": checks,
         "notes": "All checks: ./check <id> --tier quick|thorough; evidence in /verif/evidence/<id>.json; known findings in /verif/known_findings.json.",
